@@ -7,6 +7,7 @@ import (
 	"go/token"
 	"go/types"
 	"math/big"
+	"os"
 	"strconv"
 	"strings"
 
@@ -42,12 +43,14 @@ func (env *Env) nopol() *Env {
 
 // quantCtx supports "rebasing" a bounded quantifier over slice positions onto absolute heap offsets, so that
 // the quantified formula mentions (select (select H obj) K) with a plain bound variable K: E-matching then works
-// without having to match arithmetic terms.
+// without having to match arithmetic terms. A quantifier body may index several slices (or one slice at shifted
+// positions) by the bound variable; each (offset, shift) pair is a rebasing candidate. As a hypothesis the
+// quantifier is emitted once per candidate (equivalent formulas, different triggers).
 type quantCtx struct {
-	bv     string // bound variable name (index)
-	off    string // slice offset chosen for rebasing ("" if none yet)
-	k      string // absolute-offset variable
-	usedBv bool
+	bv    string // bound variable name (index)
+	k     string // absolute-offset variable
+	cands [][2]string
+	apply int // -1: collecting candidates (plain form); >=0: rebase on cands[apply]
 }
 
 func (env *Env) with(name string, v Val) *Env {
@@ -513,13 +516,27 @@ func (e *Enc) evalExpr(x ast.Expr, env *Env) Val {
 		switch u := a.T.Underlying().(type) {
 		case *types.Slice:
 			sz := m.ilit(slots(u.Elem()))
-			if slots(u.Elem()) == 1 {
+			if slots(u.Elem()) == 1 && i.QV != "" {
 				for qi := len(env.quants) - 1; qi >= 0; qi-- {
 					q := env.quants[qi]
-					if q.bv == idx && (q.off == "" || q.off == a.L[1]) {
-						q.off = a.L[1]
+					if q.bv != i.QV {
+						continue
+					}
+					c := [2]string{a.L[1], i.QShift}
+					if q.apply < 0 {
+						found := false
+						for _, x := range q.cands {
+							if x == c {
+								found = true
+							}
+						}
+						if !found && len(q.cands) < 4 {
+							q.cands = append(q.cands, c)
+						}
+					} else if q.apply < len(q.cands) && q.cands[q.apply] == c {
 						return e.load(env.st, u.Elem(), a.L[0], q.k)
 					}
+					break
 				}
 			}
 			return e.load(env.st, u.Elem(), a.L[0], m.iadd(a.L[1], m.imul(idx, sz)))
@@ -745,6 +762,17 @@ func (e *Enc) evalBinary(n *ast.BinaryExpr, env *Env) Val {
 	}
 	_, signed := intBits(ub)
 	A, B := a.L[0], b.L[0]
+	if m == ModeInt && (n.Op == token.ADD || n.Op == token.SUB) {
+		// keep the affine decomposition "bound variable + shift" for quantifier rebasing
+		switch {
+		case a.QV != "" && b.QV == "" && n.Op == token.ADD:
+			return Val{T: t, L: []string{m.iadd(A, B)}, QV: a.QV, QShift: m.iadd(a.QShift, B)}
+		case a.QV != "" && b.QV == "" && n.Op == token.SUB:
+			return Val{T: t, L: []string{m.isub(A, B)}, QV: a.QV, QShift: m.isub(a.QShift, B)}
+		case b.QV != "" && a.QV == "" && n.Op == token.ADD:
+			return Val{T: t, L: []string{m.iadd(A, B)}, QV: b.QV, QShift: m.iadd(b.QShift, A)}
+		}
+	}
 	switch n.Op {
 	case token.LSS:
 		return Val{T: boolT, L: []string{m.lt(signed, A, B)}}
@@ -854,46 +882,55 @@ func (e *Enc) evalCall(n *ast.CallExpr, env *Env) Val {
 		hi := e.coerceInt(e.evalExpr(n.Args[2], env), SI)
 		e.n++
 		bv := fmt.Sprintf("%s!q%d", id.Name, e.n)
-		inner := env.with(id.Name, Val{T: types.Typ[types.Int], L: []string{bv}})
-		q := &quantCtx{bv: bv, k: bv + "!k"}
-		inner.quants = append(append([]*quantCtx(nil), env.quants...), q)
-		p := e.evalExpr(n.Args[3], inner)
-		if p.Bad {
-			return p
-		}
-		rng := and(m.ile(lo, bv), m.ilt(bv, hi))
-		var body string
-		if fname == "all" {
-			body = implies(rng, p.L[0])
-		} else {
-			body = and(rng, p.L[0])
-		}
+		q := &quantCtx{bv: bv, k: bv + "!k", apply: -1}
 		qn := map[string]string{"all": "forall", "any": "exists"}[fname]
-		if q.off != "" {
-			// quantify over the absolute heap offset K, with the index i = K - off. The plain form (over the index)
-			// is equivalent; both are given to the solver where the polarity is known: conjoined when the formula
-			// is a hypothesis, disjoined when it is a goal (so that after negation both are available).
-			rebased := fmt.Sprintf("(%s ((%s %s)) (let ((%s %s)) %s))", qn, q.k, m.smtSort(SI), bv, m.isub(q.k, q.off), body)
-			if env.pol == 0 {
-				return Val{T: boolT, L: []string{rebased}}
+		rng := and(m.ile(lo, bv), m.ilt(bv, hi))
+		evalBody := func() (string, bool) {
+			inner := env.with(id.Name, Val{T: types.Typ[types.Int], L: []string{bv}, QV: bv, QShift: m.ilit(0)})
+			inner.quants = append(append([]*quantCtx(nil), env.quants...), q)
+			p := e.evalExpr(n.Args[3], inner)
+			if p.Bad || len(p.L) != 1 {
+				return "", false
 			}
-			// plain form: re-evaluate the body without rebasing
-			inner2 := env.with(id.Name, Val{T: types.Typ[types.Int], L: []string{bv}})
-			inner2.quants = append(append([]*quantCtx(nil), env.quants...), &quantCtx{bv: "\x00none"})
-			p2 := e.evalExpr(n.Args[3], inner2)
-			var body2 string
 			if fname == "all" {
-				body2 = implies(rng, p2.L[0])
-			} else {
-				body2 = and(rng, p2.L[0])
+				return implies(rng, p.L[0]), true
 			}
-			plain := fmt.Sprintf("(%s ((%s %s)) %s)", qn, bv, m.smtSort(SI), body2)
-			if env.pol < 0 {
-				return Val{T: boolT, L: []string{and(rebased, plain)}}
-			}
-			return Val{T: boolT, L: []string{or(rebased, plain)}}
+			return and(rng, p.L[0]), true
 		}
-		return Val{T: boolT, L: []string{fmt.Sprintf("(%s ((%s %s)) %s)", qn, bv, m.smtSort(SI), body)}}
+		plainBody, ok2 := evalBody()
+		if !ok2 {
+			return Val{Bad: true}
+		}
+		plain := fmt.Sprintf("(%s ((%s %s)) %s)", qn, bv, m.smtSort(SI), plainBody)
+		if len(q.cands) == 0 || os.Getenv("GOVC_QMODE") == "plain" {
+			return Val{T: boolT, L: []string{plain}}
+		}
+		var forms []string
+		for ci := range q.cands {
+			q.apply = ci
+			body, ok3 := evalBody()
+			if !ok3 {
+				return Val{Bad: true}
+			}
+			// index = K - off - shift
+			idxTerm := m.isub(m.isub(q.k, q.cands[ci][0]), q.cands[ci][1])
+			forms = append(forms, fmt.Sprintf("(%s ((%s %s)) (let ((%s %s)) %s))", qn, q.k, m.smtSort(SI), bv, idxTerm, body))
+			if env.pol == 0 {
+				break // mixed positions: one form
+			}
+		}
+		q.apply = -1
+		// universally quantified facts the solver may have to instantiate get every trigger form:
+		// "all" as a hypothesis (conjoined), "any" as a goal (disjoined: after negation all forms are available).
+		switch {
+		case env.pol < 0 && fname == "all":
+			return Val{T: boolT, L: []string{and(forms...)}}
+		case env.pol > 0 && fname == "any":
+			return Val{T: boolT, L: []string{or(append(forms, plain)...)}}
+		case env.pol != 0:
+			return Val{T: boolT, L: []string{plain}} // will be skolemised
+		}
+		return Val{T: boolT, L: []string{forms[0]}}
 	case "forall", "exists":
 		id, ok := n.Args[0].(*ast.Ident)
 		if !ok || len(n.Args) < 2 {
